@@ -67,7 +67,9 @@ class TypeMatchError(MatchError, TypeError):
     def __copy__(self):
         # __init__ args = (actual, expected)
         # self.args = (fmt_str, expected, actual)
-        return TypeMatchError(self.args[2], self.args[1])
+        # (a subclass with another signature fails here or yields other
+        # args: glom() then keeps the original object)
+        return type(self)(self.args[2], self.args[1])
 
 
 class Match:
